@@ -1,13 +1,15 @@
 import Model.Ring
 import Driver.Util
+import Driver.C16Ev
 namespace Driver.C16
 open Ring
 
 structure St where
   r : Ring.Ring
   objs : List RHost
+  ev : Driver.C16Ev.St := {}   -- event / refresh / propagation ops (`reset ev…`, `ev…`): Driver/C16Ev.lean
 
-def init : St := ⟨Ring.empty, []⟩
+def init : St := ⟨Ring.empty, [], {}⟩
 
 def nat (s : String) : Nat := s.toNat?.getD 0
 def natList (s : String) : List Nat := if s == "-" then [] else (s.splitOn ",").map nat
@@ -62,6 +64,6 @@ def step (s : St) (ws : List String) : St × String :=
       ++ " filled=" ++ join (eff.filled.map (fun h => toString h.obj))
       ++ " removed=" ++ join ((sortKeys (eff.removed.map (fun h => (h.obj, ())))).map (fun e => toString e.1))
       ++ " " ++ snapshot r')
-  | _ => (s, "bad-op")
+  | ws => let (e, a) := Driver.C16Ev.step s.ev ws; ({ s with ev := e }, a)
 
 end Driver.C16
